@@ -114,6 +114,10 @@ func leanIdent(name string) string {
 		return "_"
 	case "end", "at", "from", "fun", "match", "with", "then", "else", "do", "let", "have", "show", "in", "by", "open", "instance", "class", "structure", "def", "theorem", "where", "deriving":
 		return name + "'"
+	case "w", "U", "r", "some", "none", "true", "false":
+		// names the renderings use themselves (the world, the oracle of untranslated statements,
+		// the result of a returned call) or constructors of the target language
+		return name + "_"
 	}
 	return name
 }
@@ -694,6 +698,16 @@ func (s *skel) ret(x *ast.ReturnStmt, indent int, defers []string) {
 	want := ""
 	if s.resErr {
 		want = "err"
+	}
+	if s.resBool {
+		// `return a == b`, `return !c`, `return a && b`: the condition itself is the result
+		switch ast.Unparen(r).(type) {
+		case *ast.BinaryExpr, *ast.UnaryExpr:
+			if c, err := s.cond(r); err == nil {
+				s.line(indent, "(decide %s, %s)  -- %s", c, w, srcText(s.p, x))
+				return
+			}
+		}
 	}
 	v, err := s.expr(r, want)
 	if err != nil {
